@@ -8,6 +8,7 @@
    directory's group lookup) run in front of the model and enter as inputs. *)
 From Coq Require Import ZArith.
 From KM Require Import Base.Bytes Model.Auth.
+From KM Require Model.Seal.
 Open Scope N_scope.
 
 (* ---- the strings of lib/webapi/v0/proto/api.go (Obl_C01 re-proves them equal to the
@@ -61,20 +62,27 @@ Definition auth_request (q : certreq) : request :=
   {| r_get := match q_method q with HGet => true | _ => false end;
      r_origin := q_origin q; r_tls := q_tls q; r_cred := q_cred q |}.
 
-(* ---- server state as far as the handler reads it *)
+(* ---- server state as far as the handler reads it.  The key material is the state record of the
+   sealing model (Model/Seal.v: Signer, Ed25519Signer, caCertDer, KeymasterPublicKeys), so that
+   C01, C02 and C09 speak about one state: which signers are loaded is a dimension of every
+   theorem about certgen, and what the server publishes is what unsealing put there. *)
 Record server := {
-  s_sealed : bool;                       (* state.Signer == nil *)
+  s_keys : Seal.state;                   (* Signer / Ed25519Signer / caCertDer / selfRoleCaCertDer / KeymasterPublicKeys *)
   s_cfg : list bs;                       (* Config.Base.AllowedAuthBackendsForCerts *)
   s_name : N -> bs;                      (* the name a subject number stands for *)
   s_host : bs;                           (* HostIdentity *)
-  s_ed25519_ca : bool;                   (* state.Ed25519Signer != nil *)
   s_templates : list (bs * bs);          (* Config.Base.SSHCertConfig.Extensions *)
   s_realm : option bs;                   (* state.KerberosRealm *)
   s_groups : bs -> option (list bs);     (* getUserGroups; None = the lookup failed *)
   s_methods : bs -> option (list bs) }.  (* getServiceMethods *)
 
+Definition s_sealed (st : server) : bool := negb (Seal.is_some (Seal.signer (s_keys st))).   (* state.Signer == nil *)
+Definition s_ed25519_ca (st : server) : bool := Seal.is_some (Seal.ed (s_keys st)).          (* state.Ed25519Signer != nil *)
+(* the keys the two signers stand for (0 when absent; certgen never reaches a use of an absent one) *)
+Definition main_key_of (st : server) : N := match Seal.signer (s_keys st) with Some k => k | None => 0 end.
+Definition ed_key_of (st : server) : N := match Seal.ed (s_keys st) with Some k => k | None => 0 end.
+
 (* ---- what lib/certgen puts into a certificate (the fields C02 names) *)
-Inductive cakey := CAMain | CAEd25519.
 Inductive eku := EkuClientAuth | EkuPkinitClient.
 Record certdesc := {
   d_ssh : bool;                 (* SSH certificate (else X.509) *)
@@ -85,7 +93,7 @@ Record certdesc := {
   d_is_ca : bool;
   d_ekus : list eku;
   d_exts : list (bs * bs);      (* SSH Permissions.Extensions, a map *)
-  d_signer : cakey;
+  d_signer : N;                 (* the key that signed: a key name of Model/Seal.v *)
   d_orgs : list bs;
   d_groups : list bs;           (* group-list extension *)
   d_methods : list bs;          (* service-method extension *)
@@ -150,7 +158,7 @@ Definition ssh_cert (st : server) (u : N) (user : bs) (q : certreq) : outcome :=
                Issued u {| d_ssh := true; d_names := [user]; d_keyid := s_host st ++ [95] ++ user;
                            d_key := k; d_user_type := true; d_is_ca := false; d_ekus := [];
                            d_exts := ssh_extensions custom;
-                           d_signer := if ed then CAEd25519 else CAMain;
+                           d_signer := if ed then ed_key_of st else main_key_of st;
                            d_orgs := []; d_groups := []; d_methods := []; d_krb := None |}
            end
   end.
@@ -169,7 +177,7 @@ Definition x509_cert (st : server) (u : N) (user : bs) (q : certreq) (kube : boo
                           d_key := k; d_user_type := true; d_is_ca := false;
                           d_ekus := [EkuClientAuth; EkuPkinitClient];
                           d_exts := [];
-                          d_signer := CAMain;   (* getSignerX509CAForPublic: always the primary signer *)
+                          d_signer := main_key_of st;   (* getSignerX509CAForPublic: always the primary signer *)
                           d_orgs := if kube then user_groups else [s_keymaster];
                           d_groups := if q_add_groups q then user_groups else [];
                           d_methods := methods;
@@ -236,9 +244,36 @@ Definition certgen_old (expand : bs -> bs -> option bs) (html : bool) (st : serv
 Definition krb_san_old (realm user : bs) : option (bs * bs) :=
   if N.of_nat (length realm + length user) <? 97 then Some (realm, user) else None.
 
-(* what the server publishes under /public/sshca and /public/x509ca *)
-Definition published (st : server) : list cakey :=
-  CAMain :: (if s_ed25519_ca st then [CAEd25519] else []).
+(* what the server publishes: /public/sshca (and the JWKS) serve KeymasterPublicKeys,
+   /public/x509ca serves caCertDer *)
+Definition published_ssh (st : server) : list N := Seal.pubkeys (s_keys st).
+Definition published_x509 (st : server) : list N := Seal.ca_ders (s_keys st).
+
+(* ---- the client address.  getUsernameIfIPRestricted evaluates the netblocks of an IP-restricted
+   certificate against r.RemoteAddr, the TCP peer of the connection that presented the certificate.
+   Forwarding headers (X-Forwarded-For, X-Real-Ip, Forwarded) are part of the request but no input
+   of the decision: ip_valid does not look at them. *)
+Record conn := {
+  n_peer : N;                  (* IPv4 address of r.RemoteAddr, as a number *)
+  n_xff : list N;              (* addresses listed in X-Forwarded-For *)
+  n_xreal : option N;          (* X-Real-Ip *)
+  n_forwarded : option N }.    (* Forwarded: for=... *)
+Definition in_block (a : N) (b : N * N) : bool :=
+  let '(net, len) := b in (len <=? 32) && (N.shiftr a (32 - len) =? N.shiftr net (32 - len)).
+(* blocks = None: the certificate has no address extension *)
+Definition ip_valid (blocks : option (list (N * N))) (cn : conn) : bool :=
+  match blocks with Some l => existsb (in_block (n_peer cn)) l | None => false end.
+Definition with_ip_valid (c : tlsinfo) (v : bool) : tlsinfo :=
+  {| c_chain2 := c_chain2 c; c_issuer := c_issuer c; c_issuer_key_trusted := c_issuer_key_trusted c;
+     c_cn := c_cn c; c_denied := c_denied c; c_not_before := c_not_before c; c_ip_error := c_ip_error c;
+     c_ip_valid := v; c_automation := c_automation c; c_revoked := c_revoked c |}.
+(* the request as the handler sees it on a connection: the certificate's address test is the one
+   of its blocks against the peer *)
+Definition on_conn (q : certreq) (blocks : option (list (N * N))) (cn : conn) : certreq :=
+  {| q_method := q_method q; q_origin := q_origin q;
+     q_tls := match q_tls q with Some c => Some (with_ip_valid c (ip_valid blocks cn)) | None => None end;
+     q_cred := q_cred q; q_target := q_target q; q_type := q_type q; q_form_ok := q_form_ok q;
+     q_key := q_key q; q_add_groups := q_add_groups q |}.
 
 (* ---- user-name normalisation (app.go reprocessUsername) and the two places that mint a
    password credential from a submitted name (loginHandler, checkAuth's basic-auth branch) *)
